@@ -17,11 +17,12 @@ NOISE = ["nz0", "nz1"]
 
 
 def default_params(tier):
-    p = progmod.default_params(tier, collide=True, forbid=["provide", "inject_default", "dynamic", "negative"])
+    p = progmod.default_params(tier, collide=True, forbid=["provide", "inject_default", "negative"])
     p["budget_mult"] = 5000
     p["py_entry"] = 8
     p["max_prefix"] = 2
     p["noise_reads"] = True
+    p["only_den"] = 2
     return p
 
 
